@@ -13,14 +13,17 @@
 
    stdout, per case:
      == <id>
+     CONFIG <fixed 0|1> <mag_half 0|1> <doc_half 0|1>      the configuration the translator read from the source text and the header
+                                      (extracted PresetsConfig.cfg_fixed / cfg_mag_half / cfg_doc_half); the documented operator below
+                                      is evaluated with doc_half (PresetsSpec.spec_magnetization)
      RES <outcome of every call in the repaired model: ok | ex<code> | oob | uninit | fuel>
      POLY <fixed 0|1><mag_half 0|1> <n> { <re> <im> <len> { <dag 1|0> <index> } }    the model's IndexHamiltonian polynomial in map
         order, for the four model variants (or  POLY <variant> FAIL <outcome>)
      SPEC <number of entries where H differs from the documented operator> { <r> <c> <H re> <H im> <spec re> <spec im> } (first 6)
      HERM <number of entries with H[r][c] <> conj H[c][r]> { <r> <c> } (first 6)
      SU2 <+|-> <number of non-zero entries of [H, S^+-_tot]> { <r> <c> <re> <im> } (first 3)        only when su2 = 1
-     MODELSPEC <number of entries where the matrix of the fully repaired MODEL's polynomial (variant 11) differs from the
-                                      documented operator>          printed only when SPEC is not 0
+     MODELSPEC <for each model variant 00 10 01 11: number of entries where the matrix of that variant's polynomial differs
+                                      from the documented operator, -1 if the variant fails>      printed only when SPEC is not 0
      SPECSYM <0|1>                    whether the documented operator itself is Hermitian (diagnostic)
    All comparisons are exact (extracted Qeq_bool on reduced fractions).  The glue below only parses, calls the extracted
    functions, multiplies dense arrays with the extracted ring operations, and prints. *)
@@ -123,6 +126,8 @@ type case = { id : string; cplx : bool; su2 : bool; mutable n : int; mutable inf
 
 let finish (cs : case) =
   Printf.printf "== %s\n" cs.id;
+  let b x = if x then 1 else 0 in
+  Printf.printf "CONFIG %d %d %d\n" (b cfg_fixed) (b cfg_mag_half) (b cfg_doc_half);
   let m = cs.n and tb = List.rev cs.info and lines = List.rev cs.lines in
   let dim = 1 lsl m in
   if Array.length cs.h <> dim then Printf.printf "BAD matrix dimension %d for %d modes\n" (Array.length cs.h) m
@@ -138,7 +143,7 @@ let finish (cs : case) =
         (to_array id (c_spec_table tb m hist),
          (if cs.su2 then to_array id (c_splus_table tb m repaired hist) else [||]),
          (if cs.su2 then to_array id (c_sminus_table tb m repaired hist) else [||]),
-         (fun () -> match poly true true with Done p -> Some (to_array id (c_poly_table m p)) | _ -> None))
+         (fun f g -> match poly f g with Done p -> Some (to_array id (c_poly_table m p)) | _ -> None))
       end else begin
         let hist : qop list = List.map (op_of_tokens q_of_string) lines in
         Printf.printf "RES %s\n" (String.concat " " (List.map string_of_outcome (q_model_results repaired hist)));
@@ -147,7 +152,7 @@ let finish (cs : case) =
         (to_array c_of_q (q_spec_table tb m hist),
          (if cs.su2 then to_array c_of_q (q_splus_table tb m repaired hist) else [||]),
          (if cs.su2 then to_array c_of_q (q_sminus_table tb m repaired hist) else [||]),
-         (fun () -> match poly true true with Done p -> Some (to_array c_of_q (q_poly_table m p)) | _ -> None))
+         (fun f g -> match poly f g with Done p -> Some (to_array c_of_q (q_poly_table m p)) | _ -> None))
       end in
     (* (b) documented operator *)
     let nb = ref 0 and fb = Buffer.create 128 in
@@ -157,14 +162,17 @@ let finish (cs : case) =
           if !nb <= 6 then Buffer.add_string fb (Printf.sprintf " %d %d %s %s" r c (string_of_c cs.h.(r).(c)) (string_of_c spec.(r).(c))) end
       done done;
     Printf.printf "SPEC %d%s\n" !nb (Buffer.contents fb);
-    (* the fully repaired model judged by the same clause *)
+    (* every model variant judged by the same clause *)
     if !nb <> 0 then begin
-      match repaired_table () with
-      | None -> print_string "MODELSPEC -1\n"
-      | Some a ->
-        let n = ref 0 in
-        for r = 0 to dim - 1 do for c = 0 to dim - 1 do if not (ceqb a.(r).(c) spec.(r).(c)) then incr n done done;
-        Printf.printf "MODELSPEC %d\n" !n
+      print_string "MODELSPEC";
+      List.iter (fun (_, f, g) ->
+          match repaired_table f g with
+          | None -> print_string " -1"
+          | Some a ->
+            let n = ref 0 in
+            for r = 0 to dim - 1 do for c = 0 to dim - 1 do if not (ceqb a.(r).(c) spec.(r).(c)) then incr n done done;
+            Printf.printf " %d" !n) variants;
+      print_newline ()
     end;
     (* (c) Hermiticity of the implementation's matrix *)
     let nh = ref 0 and fh = Buffer.create 64 and specsym = ref true in
